@@ -106,6 +106,9 @@ def rule_agreement(ck, classes=None, rid="C09.R1", rid2="C09.R2"):
             ck.require(ok, rid, e.fn, e.node.stmt if hasattr(e.node, "stmt") else k, ok=f"dumped value of {k!r} derives from self.{k}",
                        bad=f"the value dumped under {k!r} derives from {sorted(e.roots) or 'no attribute'}, not from self.{k} (cross-wired field)",
                        sink=f"{e.fn.cls.name}:{k}:dump-source")
+        for gf, gt, gk, gother in rest.wrong_guards:
+            ck.violation(rid, gf, gt, f"the restore of {cname}[{gk!r}] is guarded by `{gk!r} in {gother}` - a different dictionary than the one the value is read "
+                         f"from: the dumped value is never read back (the guard is never true for a dumped object)", sink=f"{cname}:{gk}:guard-other-dict", positive=True)
         # R1d same-name restore (keys only read on a legacy `except` compatibility path are not part of today's format)
         legacy_only = {k for k, rs in rest.reads.items() if all(r[2] for r in rs)}
         for kind, name, keys, build, f, node in rest.sinks:
@@ -506,15 +509,15 @@ def rule_registry_binding(ck, rid="C09.R3"):
     ck.floor(rid, n, 30, "protocol dictionaries passed between (de)serialisation functions")
 
 
-def rule_constructors(ck, rid="C09.R8"):
+def rule_constructors(ck, rid="C09.R8", classes=None, floor=25):
     """restoring an object goes through its constructor (R1d maps dumped keys to constructor parameters): the constructor must put each
     parameter into the attribute of its own name (shared engine rules.same_name_constructor)"""
     from ..rules import same_name_constructor
     n = 0
-    for cname in CORE:
+    for cname in (classes or CORE):
         ci = ck.repo.cls(cname)
         n += same_name_constructor(ck, rid, ci, exceptions={("Battery", "_current_charge"), ("Battery", "_init_charge")})
-    ck.floor(rid, n, 25, "parameter-to-attribute stores of the core simulator classes")
+    ck.floor(rid, n, floor, "parameter-to-attribute stores of the core simulator classes")
 
 
 def rule_json_order(ck, rid="C09.R7"):
